@@ -2,7 +2,7 @@
   C02Loop — evaluation of the parser model on the source of a core document: eventual results (`Ev`), the algebra of
   `mergeChars`, the collector's shape bookkeeping, and one lemma per construct.
 -/
-import PylxProofs.C02Tok
+import PylxProofs.C02Tok2
 import PylxProofs.C06
 namespace Pylx
 namespace C02
@@ -112,26 +112,6 @@ theorem sh_flush (f : PSFields) (st : LoopSt) :
     show shapeOfNodes (st.acc ++ [_]) = _
     rw [shapeOfNodes_append]; unfold sh pendSh; rw [if_neg h]; rfl
 
-theorem sh_flushBefore (f : PSFields) (st : LoopSt) (t : Token) (ht : t.pre = []) :
-    shapeOfNodes (st.flushBefore f t).acc = sh st ∧ (st.flushBefore f t).pend = [] := by
-  unfold LoopSt.flushBefore
-  rw [ht]
-  by_cases h : st.pend.isEmpty = true
-  · have h1 : (!st.pend.isEmpty) = false := by rw [h]; rfl
-    have h2 : (!([] : Str).isEmpty) = false := rfl
-    rw [h1, h2]
-    simp only [Bool.false_eq_true, if_false]
-    refine ⟨?_, List.isEmpty_iff.mp h⟩
-    unfold sh pendSh; rw [if_pos h, List.append_nil]
-  · have h1 : (!st.pend.isEmpty) = true := by
-      cases hh : st.pend.isEmpty with
-      | true => exact absurd hh h
-      | false => rfl
-    rw [h1]
-    simp only [if_true, List.append_nil]
-    have := sh_flush f st
-    exact ⟨this.1, this.2.1⟩
-
 theorem pendSh_append (pd t : Str) (ht : t ≠ []) :
     mergeChars (pendSh (pd ++ t)) = mergeChars (pendSh pd ++ [.chars t]) := by
   unfold pendSh
@@ -141,6 +121,58 @@ theorem pendSh_append (pd t : Str) (ht : t ≠ []) :
     | nil => exact absurd rfl ht
     | cons c t => rfl
   | cons a pd => rfl
+
+theorem pendSh_append' (a b : Str) : mergeChars (pendSh (a ++ b)) = mergeChars (pendSh a ++ pendSh b) := by
+  cases b with
+  | nil => simp [pendSh]
+  | cons c b =>
+    rw [pendSh_append a (c :: b) (by simp)]
+    rfl
+
+/-- flushing in front of a non-char token: the pending characters and the token's leading whitespace -/
+theorem sh_flushBefore (f : PSFields) (st : LoopSt) (t : Token) :
+    mergeChars (shapeOfNodes (st.flushBefore f t).acc) = mergeChars (sh st ++ pendSh t.pre) ∧
+      (st.flushBefore f t).pend = [] := by
+  unfold LoopSt.flushBefore
+  by_cases h : st.pend.isEmpty = true
+  · have h1 : (!st.pend.isEmpty) = false := by rw [h]; rfl
+    rw [h1]
+    simp only [Bool.false_eq_true, if_false]
+    by_cases h2 : t.pre.isEmpty = true
+    · have h3 : (!t.pre.isEmpty) = false := by rw [h2]; rfl
+      rw [h3]
+      simp only [Bool.false_eq_true, if_false]
+      refine ⟨?_, List.isEmpty_iff.mp h⟩
+      unfold sh pendSh; rw [if_pos h, if_pos h2, List.append_nil, List.append_nil]
+    · have h3 : (!t.pre.isEmpty) = true := by
+        cases hh : t.pre.isEmpty with
+        | true => exact absurd hh h2
+        | false => rfl
+      rw [h3]
+      simp only [if_true]
+      refine ⟨?_, List.isEmpty_iff.mp h⟩
+      rw [shapeOfNodes_append]
+      unfold sh pendSh; rw [if_pos h, if_neg h2, List.append_nil]
+      rfl
+  · have h1 : (!st.pend.isEmpty) = true := by
+      cases hh : st.pend.isEmpty with
+      | true => exact absurd hh h
+      | false => rfl
+    rw [h1]
+    simp only [if_true]
+    have := sh_flush f ({ st with pend := st.pend ++ t.pre } : LoopSt)
+    refine ⟨?_, this.2.1⟩
+    rw [this.1]
+    show mergeChars (shapeOfNodes st.acc ++ pendSh (st.pend ++ t.pre)) = mergeChars ((shapeOfNodes st.acc ++ pendSh st.pend) ++ pendSh t.pre)
+    rw [List.append_assoc]
+    exact mergeChars_append_right _ (pendSh_append' _ _)
+
+/-- pushing characters -/
+theorem sh_push (st : LoopSt) (cs : Str) (p q : Nat) :
+    mergeChars (sh ({ (st.push cs p) with pos := q } : LoopSt)) = mergeChars (sh st ++ pendSh cs) := by
+  show mergeChars (shapeOfNodes st.acc ++ pendSh (st.pend ++ cs)) = mergeChars ((shapeOfNodes st.acc ++ pendSh st.pend) ++ pendSh cs)
+  rw [List.append_assoc]
+  exact mergeChars_append_right _ (pendSh_append' _ _)
 
 /-! ### reading a token in the collector -/
 
@@ -165,13 +197,14 @@ theorem loopStep_eos (htol : env.tol = false) (hpk : peekImpl (mkPS f) env.s st.
   rw [htol, peekTok_false, hpk]
   rfl
 
-theorem stop_test_char (stop : StopTok) (t : Token) (h : t.kind = .char ∨ t.kind = .braceOpen ∨ t.kind = .macro ∨ t.kind = .comment) :
+theorem stop_test_char (stop : StopTok) (t : Token)
+    (h : t.kind = .char ∨ t.kind = .braceOpen ∨ t.kind = .macro ∨ t.kind = .comment ∨ t.kind = .specials ∨ t.kind = .beginEnv) :
     stop.test t = false := by
   cases stop with
   | none => rfl
-  | braceClose c => rcases h with h | h | h | h <;> (simp only [StopTok.test, h]; rfl)
-  | mathClose d c => rcases h with h | h | h | h <;> cases d <;> (simp only [StopTok.test, h]; rfl)
-  | endEnv n => rcases h with h | h | h | h <;> (simp only [StopTok.test, h]; rfl)
+  | braceClose c => rcases h with h | h | h | h | h | h <;> (simp only [StopTok.test, h]; rfl)
+  | mathClose d c => rcases h with h | h | h | h | h | h <;> cases d <;> (simp only [StopTok.test, h]; rfl)
+  | endEnv n => rcases h with h | h | h | h | h | h <;> (simp only [StopTok.test, h]; rfl)
 
 end loop
 
@@ -196,6 +229,117 @@ theorem Reaches.trans {env : Env} {f : PSFields} {stop : StopTok} {child : Child
   refine ⟨st2, by omega, ?_, fun R h => hk1 R (hk2 R h)⟩
   rw [hs2, ← List.append_assoc]
   exact mergeChars_append_left hs1 tr2
+
+theorem Reaches.congr {env : Env} {f : PSFields} {stop : StopTok} {child : ChildPS} {st : LoopSt} {tr tr' : List Shape} {n : Nat}
+    (h : mergeChars tr = mergeChars tr') (hr : Reaches env f stop child st tr n) : Reaches env f stop child st tr' n := by
+  obtain ⟨st', h1, h2, h3⟩ := hr
+  exact ⟨st', h1, by rw [h2]; exact mergeChars_append_right _ h, h3⟩
+
+section generic
+variable {env : Env} {f : PSFields} {stop : StopTok} {child : ChildPS} {st : LoopSt}
+
+/-- a `char` token: its leading whitespace and its characters become pending characters -/
+theorem reach_charTok (htol : env.tol = false) {tk : Token} (hpk : peekImpl (mkPS f) env.s st.pos = .tok tk)
+    (hkind : tk.kind = .char) (hpos : st.pos ≤ tk.posEnd) :
+    Reaches env f stop child st (pendSh tk.pre ++ pendSh tk.arg) (tk.posEnd - st.pos) := by
+  refine ⟨{ (st.push (tk.pre ++ tk.arg) (tk.pos - tk.pre.length)) with pos := tk.posEnd }, ?_, ?_, ?_⟩
+  · show tk.posEnd = _; omega
+  · rw [sh_push]
+    exact mergeChars_append_right _ (pendSh_append' _ _)
+  · intro R h
+    refine Ev.of_tail (fun rec => ?_) h
+    show loopStep env rec _ stop child st = _
+    rw [loopStep_tok htol hpk, stop_test_char stop _ (Or.inl hkind)]
+    have : (tk.kind == TokKind.char) = true := by rw [hkind]; rfl
+    rw [this]
+    rfl
+
+/-- a token that makes the collector start a sub-parse (or push a node directly) and go on behind it -/
+theorem reach_dispatch (htol : env.tol = false) {tk : Token} {nd : Node} {p : Nat}
+    (hpk : peekImpl (mkPS f) env.s st.pos = .tok tk) (hstop : stop.test tk = false) (hkind : (tk.kind == TokKind.char) = false)
+    (hpos : st.pos ≤ p)
+    (hd : ∀ st0 : LoopSt, st0.pos = tk.posEnd → ∃ N, ∀ k, N ≤ k →
+      loopDispatch env (run env k) f stop child st0 { tk with pre := [] } =
+        run env k (.loop f stop child { st0 with pos := p, acc := st0.acc ++ [nd] })) :
+    Reaches env f stop child st (pendSh tk.pre ++ [shapeOf nd]) (p - st.pos) := by
+  obtain ⟨hf1, hf2⟩ := sh_flushBefore f st tk
+  obtain ⟨N, hN⟩ := hd { (st.flushBefore f tk) with pos := tk.posEnd } rfl
+  refine ⟨{ (st.flushBefore f tk) with pos := p, acc := (st.flushBefore f tk).acc ++ [nd] },
+    by show p = st.pos + (p - st.pos); omega, ?_, ?_⟩
+  · show mergeChars (shapeOfNodes ((st.flushBefore f tk).acc ++ [nd]) ++ pendSh (st.flushBefore f tk).pend) = _
+    rw [shapeOfNodes_append, hf2]
+    simp only [shapeOfNodes, pendSh, List.isEmpty_nil, if_true, List.append_nil]
+    rw [← List.append_assoc]
+    exact mergeChars_append_left hf1 _
+  · intro R h
+    obtain ⟨n2, h2⟩ := h
+    refine Ev.of_step ⟨max N n2, fun k hk => ?_⟩
+    show loopStep env (run env k) _ stop child st = R
+    rw [loopStep_tok htol hpk, hstop, hkind]
+    simp only [Bool.false_eq_true, if_false]
+    rw [hN k (by omega)]
+    exact h2 k (by omega)
+
+/-- the collector in front of the token it was asked to stop at -/
+theorem loop_stop (htol : env.tol = false) {tk : Token} (hpk : peekImpl (mkPS f) env.s st.pos = .tok tk)
+    (hs : stop.test tk = true) :
+    ∃ e : LoopEnd, Ev env (.loop f stop child st) (.loopEnd e) ∧
+      mergeChars (shapeOfNodes e.nodes) = mergeChars (sh st ++ pendSh tk.pre) ∧ e.err = none ∧ e.stopTok = some tk := by
+  let st1 : LoopSt := { (st.push tk.pre (tk.pos - tk.pre.length)) with pos := tk.pos }
+  refine ⟨{ nodes := (st1.flush f).acc, pos := (st1.flush f).pos, stopTok := some tk, err := none },
+    Ev.of_const (fun rec => ?_), ?_, rfl, rfl⟩
+  · show loopStep env rec _ _ child st = _
+    rw [loopStep_tok htol hpk, hs]
+    simp only [if_true]
+    unfold loopFinish
+    rfl
+  · show mergeChars (shapeOfNodes (st1.flush f).acc) = _
+    rw [(sh_flush f st1).1]
+    exact sh_push st tk.pre _ _
+
+/-- the collector at the end of the input -/
+theorem loop_eos (htol : env.tol = false) (f : PSFields) {st : LoopSt} (hd : env.s.drop st.pos = []) :
+    ∃ e : LoopEnd, Ev env (.loop f stop child st) (.loopEnd e) ∧
+      shapeOfNodes e.nodes = sh st ∧ e.err = none ∧ e.stopTok = none ∧ e.pos = st.pos := by
+  have hpk := peek_eos (mkPS f) hd
+  refine ⟨{ nodes := (st.flush f).acc, pos := (st.flush f).pos, stopTok := none, err := none },
+    Ev.of_const (fun rec => ?_), (sh_flush f st).1, rfl, rfl, (sh_flush f st).2.2⟩
+  show loopStep env rec _ _ child st = _
+  rw [loopStep_eos htol hpk]
+  unfold loopFinish
+  rfl
+
+/-- the collector in front of whitespace that runs to the end of the input -/
+theorem loop_eos_ws (htol : env.tol = false) (f : PSFields) {st : LoopSt} {w : Str} (hd : env.s.drop st.pos = w)
+    (hw : isWs w = true) (hnl : countNl w < 2) :
+    ∃ e : LoopEnd, Ev env (.loop f .none child st) (.loopEnd e) ∧
+      mergeChars (shapeOfNodes e.nodes) = mergeChars (sh st ++ pendSh w) ∧ e.err = none ∧ e.stopTok = none ∧
+      e.pos = st.pos + w.length := by
+  cases w with
+  | nil =>
+    obtain ⟨e, h1, h2, h3, h4, h5⟩ := loop_eos (stop := .none) (child := child) htol f hd
+    exact ⟨e, h1, by rw [h2]; simp [pendSh], h3, h4, by simpa using h5⟩
+  | cons c w =>
+    have hpk : peekImpl (mkPS f) env.s st.pos = .eos (c :: w) := peekImpl_ws_eos hd hw hnl
+    let st2 : LoopSt := { (st.push ((c :: w) ++ []) (st.pos + (c :: w).length - (c :: w).length)) with pos := st.pos + (c :: w).length }
+    have hd2 : env.s.drop st2.pos = [] := by
+      show env.s.drop (st.pos + (c :: w).length) = []
+      have := drop_add_of_drop (a := c :: w) (rest := []) (by rw [hd, List.append_nil])
+      exact this
+    obtain ⟨e, h1, h2, h3, h4, h5⟩ := loop_eos (stop := .none) (child := child) htol f hd2
+    refine ⟨e, ?_, ?_, h3, h4, h5⟩
+    · refine Ev.of_tail (fun rec => ?_) h1
+      show loopStep env rec _ _ child st = _
+      unfold loopStep loopRead
+      rw [htol, peekTok_false, hpk]
+      rfl
+    · rw [h2]
+      have := sh_push st ((c :: w) ++ []) (st.pos + (c :: w).length - (c :: w).length) (st.pos + (c :: w).length)
+      have e : pendSh ((c :: w) ++ []) = pendSh (c :: w) := by rw [List.append_nil]
+      rw [e] at this
+      exact this
+
+end generic
 
 end C02
 end Pylx
